@@ -392,6 +392,9 @@ func (g *G) mapObjectPayload(meth *m.Method, hasBodyVerb bool) {
 				if BodyAttrOptionalNonPointer(g.d, meth.Payload, bodyFields[0]) && g.avoid("C01-body-attr-optional-nonpointer") {
 					break
 				}
+				if f := g.d.FieldByName(meth.Payload, bodyFields[0]); f != nil && f.Attr.Type.Kind == m.Union && g.avoid("C01-union-in-body-fields") {
+					break
+				}
 				h.Body = &m.Body{Mode: "attr", Attr: bodyFields[0]}
 				g.feat("body-attr")
 			}
@@ -640,6 +643,9 @@ func (g *G) mapObjectResult(meth *m.Method) {
 		if g.p.RespHeaders && canHeader {
 			opts = append(opts, "header", "header")
 		}
+		if canCookie && isResultType && f.Attr.Default != nil && g.avoid("C01-result-type-response-cookie-with-default") {
+			canCookie = false
+		}
 		if g.p.RespHeaders && canCookie && (g.d.Underlying(f.Attr) == m.String || !g.avoid("C01-response-cookie-nonstring")) {
 			opts = append(opts, "cookie")
 			if g.p.RespHeavy {
@@ -658,8 +664,10 @@ func (g *G) mapObjectResult(meth *m.Method) {
 		}
 	}
 	if g.p.ExplicitBody && !isResultType && len(bodyFields) == 1 && rapid.IntRange(0, 3).Draw(t, "rbodyattr") == 0 {
-		r.Body = &m.Body{Mode: "attr", Attr: bodyFields[0]}
-		g.feat("response-body-attr")
+		if f := g.d.FieldByName(meth.Result, bodyFields[0]); !(f != nil && f.Attr.Type.Kind == m.Union && g.avoid("C01-union-in-body-fields")) {
+			r.Body = &m.Body{Mode: "attr", Attr: bodyFields[0]}
+			g.feat("response-body-attr")
+		}
 	}
 	h.Responses = append(h.Responses, r)
 	// tagged responses: need a string attribute to tag on
